@@ -1,5 +1,6 @@
 """C04 — one typo in a >=5-letter word still finds the record (necessary constants)."""
 from . import r_gates as RG
+from . import C20 as RC20
 from .common import info
 
 
@@ -22,6 +23,7 @@ def run(ctx):
                 ctx.fail("R04.e", key, where(g.body, g.bi),
                          "prefix pairs differing by one character are skipped (%s): an inserted or deleted letter "
                          "can never match" % g.describe(), {"witness": "title 'bcdfg', query 'bcxdfg'"})
+    RC20.buffer_rules(ctx, None, None, "R20.f")
     return info("Necessary constants for single-typo tolerance at the n=5 worst cases: length gate accepts 1-5/6, "
                 "Jaccard gate accepts 1/2, the DL gate accepts c/5 for every edit-cost constant c, every cost <= 1.0, "
                 "gate shapes (1-min/max, dist/max) are confirmed before the bounds are applied, and the prefix-pair "
